@@ -366,8 +366,10 @@ impl<T: Read + Seek> Iterator for PointCloudReaderSimple<'_, T> {
             return Some(Ok(point));
         }
 
-        // Report a delayed error after all the points in front of it were returned
+        // Report a delayed error after all the points in front of it were returned.
+        // The broken point was consumed and counts as read, otherwise the iterator never ends.
         if let Some(err) = self.error.take() {
+            self.read += 1;
             return Some(Err(err));
         }
 
@@ -426,6 +428,7 @@ impl<T: Read + Seek> Iterator for PointCloudReaderSimple<'_, T> {
             self.read += 1;
             Some(Ok(point))
         } else if let Some(err) = self.error.take() {
+            self.read += 1;
             Some(Err(err))
         } else {
             Some(Error::internal(
